@@ -148,6 +148,7 @@ type Exec struct {
 	callOrd   map[string]int
 	reveal    map[string]bool
 	alloc0    string
+	revealAll bool
 	curFn     string
 }
 
